@@ -39,6 +39,35 @@ pub fn pick_size(rng: &mut Rng, max: u64) -> u64 {
     }
 }
 
+/// A time (ns relative to the Unix epoch) from the C17 value classes: around the
+/// epoch, sub-100ns fractions, before 1601, the tick limit, far future/past.
+pub fn pick_time_ns(rng: &mut Rng) -> i128 {
+    const E: i128 = 116_444_736_000_000_000; // ticks between 1601 and 1970
+    let tick_limit_ns: i128 = (u64::MAX as i128 - E) * 100;
+    let y1601_ns: i128 = -E * 100;
+    let base: i128 = match rng.below(12) {
+        0 => 0,
+        1 => *rng.pick(&[1i128, 99, 100, 101, -1, -99, -100, -101]),
+        2 => rng.below(1_000_000_000) as i128 - 500_000_000,
+        3 => 1_700_000_000_000_000_000 + rng.below(4_000_000_000_000) as i128, // "now"
+        4 => y1601_ns + *rng.pick(&[0i128, 1, -1, 100, -100, 99, -99, 101]),
+        5 => -30_610_224_000_000_000_000 + rng.below(1_000_000) as i128, // year 1000
+        6 => 253_402_300_799_000_000_000 + rng.below(1_000_000_000) as i128, // year 9999
+        7 => tick_limit_ns + *rng.pick(&[0i128, 100, -100, 1, -1, 200, 1_000_000]),
+        8 => 3_093_527_980_800_000_000_000 + rng.below(1_000_000) as i128, // year ~100000
+        9 => -(rng.below(10_000_000_000_000_000_000u64) as i128),         // 1653..1970
+        10 => (rng.next_u64() >> rng.below(30)) as i128 * 100 - E * 100 + rng.below(100) as i128,
+        _ => rng.next_u64() as i128 - (1i128 << 63),
+    };
+    // must be representable as a SystemTime (i64 seconds)
+    let secs = base.div_euclid(1_000_000_000);
+    if secs > i64::MAX as i128 / 4 || secs < i64::MIN as i128 / 4 {
+        0
+    } else {
+        base
+    }
+}
+
 /// Case variant of a name within the unambiguous alphabet (swaps the case of cased BMP
 /// characters whose mapping round-trips under the independent table).
 pub fn case_variant(rng: &mut Rng, name: &str) -> String {
@@ -345,7 +374,8 @@ impl Gen {
             let picked = (*rng.pick(&all)).clone();
             let p = self.decorate(rng, picked);
             let st = rng.pick(&idx.storages).clone();
-            let op = match rng.below(5) {
+            let op = match rng.below(6) {
+                5 => Op::Touch(p),
                 0 => {
                     let mut c = [0u8; 16];
                     for b in c.iter_mut() {
@@ -354,8 +384,8 @@ impl Gen {
                     Op::SetClsid(self.decorate(rng, st), c)
                 }
                 1 => Op::SetState(p, rng.next_u32()),
-                2 => Op::SetCreated(p, rng.next_u64() >> rng.below(20)),
-                3 => Op::SetModified(p, rng.next_u64() >> rng.below(20)),
+                2 => Op::SetCreated(p, pick_time_ns(rng)),
+                3 => Op::SetModified(p, pick_time_ns(rng)),
                 _ => Op::SetState(p, 0),
             };
             return vec![Step::Api(op)];
